@@ -235,6 +235,10 @@ def Hdr.bytes (h : Hdr) (length : Nat) : List Nat :=
   [firstByte h.pnLen] ++ beBytes 4 h.version ++ [h.dcid.length] ++ h.dcid ++ [h.scid.length] ++ h.scid ++
     varintBytes h.token.length ++ h.token ++ varintBytesW lenW length ++ beBytes h.pnLen h.pn
 
+/-- the header `getLongHeader` builds for the `i`-th Initial of the flight of a dial with random stream `s` -/
+def hdrOf (spec : Spec) (s : Nat → Nat) (tokOff : Nat) (i : Nat) : Hdr :=
+  { dcid := dcidFor spec s, scid := scidFor spec s, token := tokenFor spec s tokOff, pn := pnFor spec i, pnLen := pnLenFor spec i }
+
 /-! ### appendInitialPacketPayload -/
 
 inductive Err
